@@ -48,6 +48,20 @@ Covered(plan, p) == \E j \in 1..Len(plan) : Comparable(plan[j].path, p)
 C08_ModifiedReported(edits, plan, problemPaths, before) ==
   \A p \in edits : (At(before, p) # Nil /\ Covered(plan, p)) => \E q \in problemPaths : Comparable(q, p)
 
+\* ----------------------------------------------------- C03 on the filesystem
+\* A node that is on disk when the transition starts and that the plan's Old
+\* trees do not describe - a newcomer at a path the plan creates, a FIFO or other
+\* untracked entry, an unknown child of a directory being removed, anything
+\* outside the plan - is still there afterwards: same kind and, for
+\* non-directories, the very same node (content / target / identity).
+DescribedByPlan(plan, p) ==
+  \/ \E j \in 1..Len(plan) : IsPrefix(plan[j].path, p)
+                               /\ At(plan[j].old, SubSeq(p, Len(plan[j].path) + 1, Len(p))) # Nil
+  \/ \E j \in 1..Len(plan) : IsPrefix(p, plan[j].path) /\ p # plan[j].path      \* a directory leading to a change
+SameNode(x, y) == IF x.k = "dir" THEN y.k = "dir" ELSE x = y
+C03_UntrackedOnDiskUntouched(plan, before, after) ==
+  \A p \in Nodes(before) : ~DescribedByPlan(plan, p) => SameNode(At(before, p), At(after, p))
+
 \* a transition never changes anything outside the subtrees its plan names
 C08_OutsidePlanUntouched(plan, before, after) ==
   \A p \in Nodes(before) : (\A j \in 1..Len(plan) : ~IsPrefix(plan[j].path, p) /\ ~IsPrefix(p, plan[j].path))
